@@ -74,6 +74,14 @@ struct HeadTask {
     snaps: Vec<Vec<(u128, Presence)>>,
 }
 
+#[derive(Clone, Debug)]
+enum GcItem {
+    /// lazy-expiry removal queued by a stream read (`certain` = the read certainly
+    /// scanned the frame)
+    Remove { id: u128, certain: bool },
+    Head(HeadTask),
+}
+
 /// What kind of disagreement the oracle found; mapped to property ids by the
 /// checks.
 #[derive(Clone, Copy, Debug, PartialEq, Eq, Hash)]
@@ -151,10 +159,15 @@ pub enum GoneWhy {
 pub struct Model {
     pub frames: BTreeMap<u128, MFrame>,
     pub clock: u64,
-    tasks: Vec<HeadTask>,
+    /// the collector's FIFO queue as far as the model knows it
+    queue: Vec<GcItem>,
     /// ids that are certainly not stored, with the reason (for diagnostics/classes)
     pub gone: BTreeMap<u128, GoneWhy>,
     pub last_append_id: Option<u128>,
+    /// ids (re)inserted by import while a head:K task of their topic was queued:
+    /// the task may have evaluated before the import, so they cannot be
+    /// *certainly* evicted by it
+    reinserted: BTreeSet<u128>,
     /// how many oracle evaluations had no `Maybe` frame in scope (exact) vs not
     pub exact_checks: u64,
     pub fuzzy_checks: u64,
@@ -180,7 +193,10 @@ impl Model {
     /// removed: the collector runs asynchronously any time after the append.
     pub fn pending_evictable(&self) -> BTreeSet<u128> {
         let mut out = BTreeSet::new();
-        for t in &self.tasks {
+        for t in self.queue.iter().filter_map(|q| match q {
+            GcItem::Head(t) => Some(t),
+            _ => None,
+        }) {
             let keep = t.keep as usize;
             for snap in &t.snaps {
                 for (i, (id, _)) in snap.iter().rev().enumerate() {
@@ -286,24 +302,25 @@ impl Model {
             .values()
             .filter(|f| f.ctx == ctx && f.topic == topic)
             .map(|f| {
-                (
-                    f.id,
-                    if f.pending_remove.is_some() || self.is_expired(f) {
-                        Presence::Maybe
-                    } else {
-                        f.presence
-                    },
-                )
+                (f.id, f.presence)
             })
             .collect()
     }
 
+    fn has_task(&self, ctx: u128, topic: &str) -> bool {
+        self.queue
+            .iter()
+            .any(|q| matches!(q, GcItem::Head(t) if t.ctx == ctx && t.topic == topic))
+    }
+
     fn touch_tasks(&mut self, ctx: u128, topic: &str) {
-        if self.tasks.iter().any(|t| t.ctx == ctx && t.topic == topic) {
+        if self.has_task(ctx, topic) {
             let pop = self.topic_population_raw(ctx, topic);
-            for t in self.tasks.iter_mut() {
-                if t.ctx == ctx && t.topic == topic {
-                    t.snaps.push(pop.clone());
+            for q in self.queue.iter_mut() {
+                if let GcItem::Head(t) = q {
+                    if t.ctx == ctx && t.topic == topic {
+                        t.snaps.push(pop.clone());
+                    }
                 }
             }
         }
@@ -362,12 +379,12 @@ impl Model {
         self.touch_tasks(ctx, &topic);
         if let Some(WTtl::Head(k)) = ttl {
             let pop = self.topic_population_raw(ctx, &topic);
-            self.tasks.push(HeadTask {
+            self.queue.push(GcItem::Head(HeadTask {
                 ctx,
                 topic,
                 keep: k,
                 snaps: vec![pop],
-            });
+            }));
         }
         Ok(())
     }
@@ -388,6 +405,9 @@ impl Model {
         };
         self.gone.remove(&id);
         let (ctx, topic) = (mf.ctx, mf.topic.clone());
+        if self.has_task(ctx, &topic) {
+            self.reinserted.insert(id);
+        }
         self.frames.insert(id, mf);
         self.touch_tasks(ctx, &topic);
     }
@@ -578,7 +598,22 @@ impl Model {
         }
         // side effect of a stream read: expired frames it scanned are queued for removal
         let last_returned = result.last().map(|w| w.id128());
+        self.note_scan(ctx, last_id, exhausted, last_returned);
+        Ok(())
+    }
+
+    /// A stream read over (ctx, after last_id) happened: every expired frame it
+    /// scanned has a removal queued behind whatever is already in the collector's
+    /// queue.
+    pub fn note_scan(
+        &mut self,
+        ctx: Option<u128>,
+        last_id: Option<u128>,
+        exhausted: bool,
+        last_returned: Option<u128>,
+    ) {
         let clock = self.clock;
+        let mut queued = Vec::new();
         for f in self.frames.values_mut() {
             if !Self::in_scope(f, ctx, last_id) {
                 continue;
@@ -591,6 +626,10 @@ impl Model {
                 continue;
             }
             let certainly_scanned = exhausted || last_returned.map(|l| f.id < l).unwrap_or(false);
+            queued.push(GcItem::Remove {
+                id: f.id,
+                certain: certainly_scanned,
+            });
             match (f.pending_remove, certainly_scanned) {
                 (Some(true), _) => {}
                 (_, true) => f.pending_remove = Some(true),
@@ -598,7 +637,7 @@ impl Model {
                 (Some(false), false) => {}
             }
         }
-        Ok(())
+        self.queue.extend(queued);
     }
 
     pub fn check_get(&mut self, what: &str, id: u128, result: Option<&WFrame>) -> Check {
@@ -714,7 +753,7 @@ impl Model {
         }
     }
 
-    /// `wait_for_gc` returned: everything queued before it has run.
+    /// `wait_for_gc` returned: everything queued before it has run, in order.
     pub fn drain(&mut self) {
         // what the collector has (certainly / possibly) removed so far in this drain;
         // only this is applied to the populations recorded in later tasks' snapshots
@@ -722,29 +761,30 @@ impl Model {
         // taken after them)
         let mut gone_gc: BTreeSet<u128> = BTreeSet::new();
         let mut maybe_gc: BTreeSet<u128> = BTreeSet::new();
-        // 1. lazy-expiry removals
-        let ids: Vec<u128> = self.frames.keys().cloned().collect();
-        for id in ids {
-            let f = self.frames.get_mut(&id).unwrap();
-            match f.pending_remove {
-                Some(true) => {
-                    self.frames.remove(&id);
-                    self.gone.insert(id, GoneWhy::Expired);
-                    gone_gc.insert(id);
+        let queue = std::mem::take(&mut self.queue);
+        for item in queue {
+            match item {
+                GcItem::Remove { id, certain } => {
+                    if certain {
+                        gone_gc.insert(id);
+                        maybe_gc.remove(&id);
+                        if self.frames.remove(&id).is_some() {
+                            self.gone.insert(id, GoneWhy::Expired);
+                        }
+                    } else if !gone_gc.contains(&id) {
+                        maybe_gc.insert(id);
+                        if let Some(f) = self.frames.get_mut(&id) {
+                            f.presence = Presence::Maybe;
+                        }
+                    }
                 }
-                Some(false) => {
-                    f.pending_remove = None;
-                    f.presence = Presence::Maybe;
-                    maybe_gc.insert(id);
-                }
-                None => {}
+                GcItem::Head(t) => self.resolve_task(&t, false, &mut gone_gc, &mut maybe_gc),
             }
         }
-        // 2. head:K tasks in FIFO order
-        let tasks = std::mem::take(&mut self.tasks);
-        for t in tasks {
-            self.resolve_task(&t, false, &mut gone_gc, &mut maybe_gc);
+        for f in self.frames.values_mut() {
+            f.pending_remove = None;
         }
+        self.reinserted.clear();
     }
 
     fn resolve_task(
@@ -792,10 +832,14 @@ impl Model {
                 Some(c) => c.intersection(&cert_i).cloned().collect(),
             });
         }
-        let certain = if may_not_have_run {
+        let certain: BTreeSet<u128> = if may_not_have_run {
             BTreeSet::new()
         } else {
-            certain.unwrap_or_default()
+            certain
+                .unwrap_or_default()
+                .into_iter()
+                .filter(|id| !self.reinserted.contains(id))
+                .collect()
         };
         for id in &possible {
             if certain.contains(id) {
@@ -813,21 +857,28 @@ impl Model {
     }
 
     /// The process was killed and the store reopened: queued GC work may or may
-    /// not have run.
+    /// not have run (in order, up to some point). Opening the store scans the zero
+    /// context as a stream read.
     pub fn reopen(&mut self) {
         let mut gone_gc = BTreeSet::new();
         let mut maybe_gc = BTreeSet::new();
-        for f in self.frames.values_mut() {
-            if f.pending_remove.is_some() {
-                f.pending_remove = None;
-                f.presence = Presence::Maybe;
-                maybe_gc.insert(f.id);
+        let queue = std::mem::take(&mut self.queue);
+        for item in queue {
+            match item {
+                GcItem::Remove { id, .. } => {
+                    maybe_gc.insert(id);
+                    if let Some(f) = self.frames.get_mut(&id) {
+                        f.presence = Presence::Maybe;
+                    }
+                }
+                GcItem::Head(t) => self.resolve_task(&t, true, &mut gone_gc, &mut maybe_gc),
             }
         }
-        let tasks = std::mem::take(&mut self.tasks);
-        for t in tasks {
-            self.resolve_task(&t, true, &mut gone_gc, &mut maybe_gc);
+        for f in self.frames.values_mut() {
+            f.pending_remove = None;
         }
+        self.reinserted.clear();
+        self.note_scan(Some(ZERO), None, true, None);
     }
 
     /// A `Maybe` frame was observed at a settled point: fix its state.
